@@ -27,12 +27,42 @@ import run as st        # noqa: E402
 SEEDED = os.path.join(VERIF, 'seeded')
 
 
-def patched_copy(patch):
-    root = st.make_copy()
+FALLBACK_BASE = 'd877b03'     # tree the round 2-4 / refactoring patches
+                              # were written against
+
+
+def _apply(root, patch):
     proc = subprocess.run(['patch', '-p1', '--no-backup-if-mismatch'],
                           cwd=root, input=open(patch).read(),
                           capture_output=True, text=True)
-    return root, proc.returncode == 0, proc.stdout[-300:]
+    return proc.returncode == 0, proc.stdout[-300:]
+
+
+def base_copy(commit):
+    import tempfile
+    root = tempfile.mkdtemp(prefix='vf-selftest-')
+    tar = subprocess.run(['git', '-C', st.REPO, 'archive', commit, 'desper',
+                          'tests'], capture_output=True)
+    subprocess.run(['tar', '-x', '-C', root], input=tar.stdout, check=True)
+    return root
+
+
+def patched_copy(patch):
+    """Scratch copy of the CURRENT tree with the patch applied; when a later
+    repair in /repo touched the same lines and the patch no longer applies,
+    fall back to the commit the patch was written against."""
+    root = st.make_copy()
+    ok, why = _apply(root, patch)
+    if ok:
+        return root, True, ''
+    shutil.rmtree(root, ignore_errors=True)
+    root = base_copy(FALLBACK_BASE)
+    ok, why2 = _apply(root, patch)
+    # the fallback tree predates the repair aad6aa0: the probe that found
+    # that defect would fire on it whatever the patch does
+    open(os.path.join(root, '.predates_aad6aa0'), 'w').close()
+    return root, ok, (f'(applied to {FALLBACK_BASE}, not to the current tree) '
+                      if ok else why + why2)
 
 
 def run_demo(demo, root):
